@@ -49,7 +49,7 @@ FIRING = [
     ('normrelpath-prefix-shortcut', [('utils.py', "    return relpath(normpath(target), dirname(normpath(base)))", "    basedir = dirname(normpath(base))\n    target = normpath(target)\n    if target.startswith(basedir):\n        return target[len(basedir):].lstrip('/')\n    return relpath(target, basedir)", 0)], 'C18', 'R18.3'),
     ('string-escapes-ascii-only', [(L, "                | \\\\[^\\n\\r\\u2028\\u20290-9xu] # escaped chars", "                | \\\\[a-tvwyzA-TVWYZ!-\\/:-@\\[-`{-~] # escaped chars", -1)], 'C06', 'R06.5'),
     ('regex-literal-spans-lines', [(L, "        (?: [^\\\\/[\\n\\r\\u2028\\u2029]     # anything but \\ / [ or a newline", "        (?: [^\\\\/[]     # anything but \\ / [", 0)], 'C03', 'R06.5'),
-    ('restricted-production-paren-dependent', [(L, "            and self.prev_token is not None\n            and self.prev_token.type in ['BREAK', 'CONTINUE',", "            and self.prev_token is not None\n            and not self.token_stack[-1][1]\n            and self.prev_token.type in ['BREAK', 'CONTINUE',", 0)], 'C04', 'R04.3'),
+    ('restricted-production-paren-dependent', [(L, "            and self.cur_token_real is not None\n            and self.cur_token_real.type in ['BREAK', 'CONTINUE',", "            and self.cur_token_real is not None\n            and not self.token_stack[-1][1]\n            and self.cur_token_real.type in ['BREAK', 'CONTINUE',", 0)], 'C04', 'R04.3'),
     ('groupasmap-first-wins', [('unparsers/extractor.py', "                result.update(item.value)", "                for k, v in item.value:\n                    result.setdefault(k, v)", 0)], 'C19', 'R19.2'),
     ('swap-operands-xor-noin', [(P, "BinOp(op=p[2], left=p[1], right=p[3])",
                                  "BinOp(op=p[2], left=p[3], right=p[1])", 21)],
